@@ -28,6 +28,10 @@ def _case(draw):
     structural = draw(st.integers(0, 3)) == 0
     strs = st.one_of(S.SIMPLE_SCALARS, st.sampled_from([1e22, float('inf'), float('-inf'), 1e-07, 2.5e-10]), st.sampled_from(['multi\nline', "it's", 'say "x"', 'both \' and "', ' lead', 'trail ', '1', 'true', '~', 'a: b', '#c', '', 'é中', "f'{1+1}'", 'f"x"', '0x1F', '1_000']))
     doc = draw(S.full_doc(allow_structural=structural, scalars=strs, aliases=draw(st.sampled_from([False, True, 'all']))))
+    if not structural and draw(st.integers(0, 3)) == 0:
+        # a plain value marked unsafe (tag or metadata) that a call depends on: the mark is what makes the call refuse to run
+        val = tdoc.sc(draw(st.sampled_from([7, 'txt', 2.5, True, None])), unsafe=True, mdstyle=draw(st.sampled_from(['short', 'braces', 'hex'])))
+        doc['items'] = [kv for kv in doc['items'] if kv[0] not in ('ua', 'uc')] + [['ua', val], ['uc', tdoc.mp([('v', tdoc.raw('ua', '!xref'))], flow=True, tag='!call:vfrec.call_90')]]
     pre = draw(st.lists(S.tagged_stages(min_stages=1, max_stages=1, keys=S.MERGE_KEYS_NONEG, neg=False, density=3).map(lambda l: l[0]), max_size=2))
     post = draw(st.lists(S.tagged_stages(min_stages=1, max_stages=1, keys=S.MERGE_KEYS_NONEG, neg=False, density=3, notnew=True).map(lambda l: l[0]), max_size=2))
     return {'doc': doc, 'pre': pre, 'post': post, 'structural': structural}
